@@ -1,6 +1,5 @@
 import RichModel.Lemmas.LayoutBase
-import RichModel.Props.C07
-import RichModel.Props.C08
+import RichModel.Lemmas.LayoutDeps
 /-!
 The body lines of a table at the level of segments (`bodyLineSegs` of `Model/Layout.lean`): every line of
 `Table.renderBody` becomes a newline-free line followed by `Segment.line()`, never wider than the table's
